@@ -728,7 +728,19 @@ Definition handle_abort (w : world) (h : nat) (c : client) (m : msg) : outcome :
 Definition handle_ice (w : world) (h : nat) (c : client) (m : msg) : outcome :=
   if is_empty (m_id m) then failed w (EProto "empty id") Invalid
   else if negb (m_candidate m) then failed w (EProto "null candidate") Invalid
-  else ok w.
+  else
+    (* gotICE: conn := getConn(c, id), an up connection, else a down
+       connection, else nil; nil -> "unknown id in ICE" is logged and nothing
+       happens; otherwise the candidate is handed to the peer connection or
+       buffered (no signalling effect, errors are only logged) *)
+    match find_up c (m_id m) with
+    | Some _ => ok w
+    | None =>
+        match find_down c (m_id m) with
+        | Some _ => ok w
+        | None => ok w
+        end
+    end.
 
 Definition value_text (v : value) : str :=
   match v with VStr s => s | VNone => "" | _ => lib_error end.
